@@ -4,7 +4,7 @@ use crate::util::*;
 use core::fmt::Write;
 use core::str::FromStr;
 
-pub const CAP: usize = 48;
+pub const CAP: usize = 26;
 
 pub struct Sink {
     pub buf: [u8; CAP],
@@ -132,10 +132,10 @@ pub fn close_to_zero_fires(frac_bits: u64, f: u32, max_digits: usize) -> bool {
 }
 
 macro_rules! c09_display {
-    // default Display/Debug: correct rounding at the shown digits + round trip through FromStr
+    // default Display: correct rounding at the digits shown, sign
     ($name:ident, $L:ty, $I:ty, $F:expr) => {
         #[kani::proof]
-        #[kani::unwind(52)]
+        #[kani::unwind(28)]
         #[kani::stub(core::str::from_utf8, ascii_from_utf8)]
         pub fn $name() {
             let bits: $I = kani::any();
@@ -153,18 +153,32 @@ macro_rules! c09_display {
             assert!(d.ok && d.k <= 12, "Display output is [-]digits[.digits]");
             assert!(d.neg == (neg && aa != 0) && !d.plus, "sign printed exactly for negative values");
             assert!(correctly_rounded(aa, $F, d.digits, d.k), "printed digits are the value correctly rounded at the digits shown");
-            kani::cover!(d.k >= 2, "W:two or more fraction digits (or integer type)" );
-            match <$L>::from_str(s.as_str()) {
-                Ok(y) => assert!(y.to_bits() == bits, "FromStr(Display(x)) == x"),
-                Err(_) => assert!(false, "Display output parses"),
+            kani::cover!(d.k >= 2 || $F < 2, "W:two or more fraction digits (or at most one fractional bit)");
+        }
+    };
+}
+
+macro_rules! c09_roundtrip {
+    // FromStr(Display(x)) == x through the real parser; Debug prints like Display
+    ($name:ident, $L:ty, $I:ty, $F:expr) => {
+        #[kani::proof]
+        #[kani::unwind(28)]
+        #[kani::stub(core::str::from_utf8, ascii_from_utf8)]
+        pub fn $name() {
+            let bits: $I = kani::any();
+            let x = <$L>::from_bits(bits);
+            let (_neg, aa) = bits.neg_abs();
+            if cfg!(feature = "kf_c09_close_to_zero") {
+                let fm: u64 = if $F == 0 { 0 } else { (1u64 << $F) - 1 };
+                kani::assume(!close_to_zero_fires((aa as u64) & fm, $F, 12));
             }
-            let mut s2 = Sink::new();
-            let r2 = write!(s2, "{:?}", x);
-            assert!(r2.is_ok() && s2.len == s.len, "Debug prints like Display");
-            let mut i = 0;
-            while i < s.len {
-                assert!(s2.buf[i] == s.buf[i], "Debug prints like Display");
-                i += 1;
+            let mut s = Sink::new();
+            let r = write!(s, "{:?}", x);
+            assert!(r.is_ok() && !s.overflow, "Debug succeeds");
+            kani::cover!(s.len >= 4, "W:at least four characters (or integer type)");
+            match <$L>::from_str(s.as_str()) {
+                Ok(y) => assert!(y.to_bits() == bits, "FromStr(output) == x"),
+                Err(_) => assert!(false, "default output parses"),
             }
         }
     };
@@ -174,7 +188,7 @@ macro_rules! c09_prec {
     // requested precision p (symbolic, 0..=PMAX): exactly p fraction digits, correctly rounded
     ($name:ident, $L:ty, $I:ty, $F:expr, $PMAX:expr) => {
         #[kani::proof]
-        #[kani::unwind(52)]
+        #[kani::unwind(28)]
         #[kani::stub(core::str::from_utf8, ascii_from_utf8)]
         pub fn $name() {
             let bits: $I = kani::any();
@@ -199,45 +213,70 @@ macro_rules! c09_prec {
     };
 }
 
+/// digits of a binary / octal / hexadecimal output as one integer and the number of fraction digits
+pub fn read_radix(b: &[u8], digit_bits: u32, upper: bool) -> (bool, bool, u64, u32) {
+    let mut ok = true;
+    let mut neg = false;
+    let mut n: u64 = 0;
+    let mut k: u32 = 0;
+    let mut seen_point = false;
+    let mut ndig = 0;
+    let mut i = 0;
+    if i < b.len() && b[i] == b'-' {
+        neg = true;
+        i += 1;
+    }
+    while i < b.len() {
+        let c = b[i];
+        if c == b'.' {
+            if seen_point { ok = false; }
+            seen_point = true;
+        } else {
+            let v: u8 = if c >= b'0' && c <= b'9' { c - b'0' }
+                else if !upper && c >= b'a' && c <= b'f' { c - b'a' + 10 }
+                else if upper && c >= b'A' && c <= b'F' { c - b'A' + 10 }
+                else { ok = false; 0 };
+            if (v as u32) >= (1u32 << digit_bits) { ok = false; }
+            n = (n << digit_bits) | v as u64;
+            ndig += 1;
+            if seen_point { k += 1; }
+        }
+        i += 1;
+    }
+    if ndig == 0 || (seen_point && k == 0) { ok = false; }
+    (ok, neg, n, k)
+}
+
 macro_rules! c09_radix {
-    // binary / octal / hex print the exact value
-    ($name:ident, $L:ty, $I:ty, $F:expr) => {
+    // binary / octal / hex print the exact value: N / radix^k == |bits| / 2^f
+    ($name:ident, $L:ty, $I:ty, $F:expr, $WHICH:expr) => {
         #[kani::proof]
-        #[kani::unwind(52)]
+        #[kani::unwind(28)]
         #[kani::stub(core::str::from_utf8, ascii_from_utf8)]
         pub fn $name() {
             let bits: $I = kani::any();
             let x = <$L>::from_bits(bits);
-            let which: u8 = kani::any();
-            kani::assume(which < 4);
+            let (neg, aa) = bits.neg_abs();
             let mut s = Sink::new();
-            let r = if which == 0 { write!(s, "{:b}", x) } else if which == 1 { write!(s, "{:o}", x) }
-                else if which == 2 { write!(s, "{:x}", x) } else { write!(s, "{:X}", x) };
+            let r = if $WHICH == 0 { write!(s, "{:b}", x) } else if $WHICH == 1 { write!(s, "{:o}", x) }
+                else if $WHICH == 2 { write!(s, "{:x}", x) } else { write!(s, "{:X}", x) };
             assert!(r.is_ok() && !s.overflow, "radix formatting succeeds");
-            kani::cover!(which == 3, "W:upper hex");
-            // exact: parsing the output in that radix returns the same value
-            let back = if which == 0 { <$L>::from_str_binary(s.as_str()) } else if which == 1 { <$L>::from_str_octal(s.as_str()) }
-                else { <$L>::from_str_hex(s.as_str()) };
-            match back {
-                Ok(y) => assert!(y.to_bits() == bits, "binary/octal/hex output is the exact value (parses back to it)"),
-                Err(_) => assert!(false, "binary/octal/hex output parses"),
-            }
-            // no lower-case letters in {:X}, no upper-case in {:x}
-            let mut i = 0;
-            while i < s.len {
-                let c = s.buf[i];
-                assert!(!(which == 3 && c >= b'a' && c <= b'f') && !(which == 2 && c >= b'A' && c <= b'F'), "hex digit case follows the format");
-                i += 1;
-            }
+            let db: u32 = if $WHICH == 0 { 1 } else if $WHICH == 1 { 3 } else { 4 };
+            let (ok, pneg, n, k) = read_radix(&s.buf[..s.len], db, $WHICH == 3);
+            kani::cover!(k >= 1 || $F == 0, "W:fraction digits printed (or integer type)");
+            assert!(ok, "output is [-]digits[.digits] of the radix, with the digit case of the format");
+            assert!(pneg == (neg && aa != 0), "sign printed exactly for negative values");
+            // N * 2^f == |bits| * 2^(db*k)
+            assert!((n << $F) == ((aa as u64) << (db * k)), "binary/octal/hex output is the exact value");
         }
     };
 }
 
 macro_rules! c09_flags {
     // width / fill / alignment / + / # / 0 only add padding, sign and prefix around the flag-free output
-    ($name:ident, $L:ty, $I:ty, $F:expr) => {
+    ($name:ident, $L:ty, $I:ty, $F:expr, $WHICH:expr) => {
         #[kani::proof]
-        #[kani::unwind(52)]
+        #[kani::unwind(28)]
         #[kani::stub(core::str::from_utf8, ascii_from_utf8)]
         pub fn $name() {
             let bits: $I = kani::any();
@@ -245,9 +284,8 @@ macro_rules! c09_flags {
             let (neg, aa) = bits.neg_abs();
             let neg = neg && aa != 0;
             let w: usize = kani::any();
-            kani::assume(w <= 14);
-            let which: u8 = kani::any();
-            kani::assume(which < 6);
+            kani::assume(w <= 12);
+            let which: u8 = $WHICH;
             let mut plain = Sink::new();
             let mut s = Sink::new();
             let (r0, r) = if which == 0 { (write!(plain, "{}", x), write!(s, "{:+}", x)) }
@@ -257,8 +295,7 @@ macro_rules! c09_flags {
                 else if which == 4 { (write!(plain, "{:x}", x), write!(s, "{:#x}", x)) }
                 else { (write!(plain, "{}", x), write!(s, "{:^+1$}", x, w)) };
             assert!(r0.is_ok() && r.is_ok() && !s.overflow && !plain.overflow, "formatting with flags succeeds");
-            kani::cover!(which == 5 && w == 14, "W:centred, widest");
-            // strip padding / sign / prefix and compare with the flag-free digits
+            kani::cover!(w == 12, "W:widest");
             let body_start = if neg { 1 } else { 0 }; // plain output carries '-' for negatives
             let body_len = plain.len - body_start;
             let want_sign: usize = if neg || which == 0 || which == 5 { 1 } else { 0 };
@@ -268,7 +305,6 @@ macro_rules! c09_flags {
             assert!(s.len == total, "flags only add padding, sign and prefix");
             let pad = total - min_len;
             let (pl, pz) = if which == 1 { (pad, 0) } else if which == 3 { (0, pad) } else if which == 5 { (pad / 2, 0) } else { (0, 0) };
-            // sign position
             if want_sign == 1 {
                 let c = s.buf[pl];
                 assert!(c == if neg { b'-' } else { b'+' }, "sign is printed once, after left padding");
@@ -299,7 +335,7 @@ macro_rules! c09_flags {
 
 /// witness of the open known finding kf_c09_close_to_zero (concrete value)
 #[kani::proof]
-#[kani::unwind(52)]
+#[kani::unwind(28)]
 #[kani::stub(core::str::from_utf8, ascii_from_utf8)]
 pub fn kfw_c09_close_to_zero() {
     use substrate_fixed::types::U0F8;
